@@ -52,6 +52,21 @@ Section Spec.
   Definition index_ordered_b (h : hugr) : bool :=
     let L := lives h in let T := child_table h L in
     is_live h (h_root h) && forallb (node_ordered h T) L.
+  (* the hierarchy alone, whatever the indices: the root is the only parentless node, every other live
+     node has a live parent different from itself, every children list holds exactly the node's children
+     (in any order).  Used to state the index-reuse refutations: such HUGRs are well formed. *)
+  Definition hierarchy_ok_b (h : hugr) : bool :=
+    let L := lives h in let T := child_table h L in
+    is_live h (h_root h) &&
+    forallb (fun i =>
+      match get_node h i with
+      | None => false
+      | Some n =>
+          match n_parent n with
+          | None => i =? h_root h
+          | Some p => is_live h p && negb (p =? i) && negb (i =? h_root h)
+          end && perm_eqb Nat.eqb (n_children n) (children_in T i)
+      end) L.
   (* links attach only to live nodes and to ports their operations have (an order link needs an
      operation with an order port; a numbered port of such an operation is a value or static port) *)
   Definition port_exists (h : hugr) (p : port) (d : dir) : bool :=
@@ -155,6 +170,6 @@ End Spec.
 Arguments is_live {op md}. Arguments lives {op md}. Arguments rank {op md}.
 Arguments IndexSane {sop md}. Arguments index_sane_b {sop md}.
 Arguments port_addressing_b {op sop md}. Arguments nodes_listed_b {op sop md}. Arguments iso_b {op sop md}.
-Arguments guard_b {op md}. Arguments index_ordered_b {op md}. Arguments ports_exist_b {op md}.
+Arguments guard_b {op md}. Arguments index_ordered_b {op md}. Arguments hierarchy_ok_b {op md}. Arguments ports_exist_b {op md}.
 Arguments Iso {op sop md}. Arguments addr {op md}. Arguments expected_edge {op md}.
 Arguments port_exists {op md}. Arguments node_ordered {op md}. Arguments child_table {op md}. Arguments expected_edge_in {op md}. Arguments is_child {op md}. Arguments parent_of {op md}.
